@@ -1111,7 +1111,12 @@ class SArr(object):
         raise Unsupported("len() of a symbolic array without the builtin shim")
 
     def __iter__(self):
-        raise Unsupported("iteration over a symbolic array")
+        """`for v in arr` over a one-dimensional array: the body runs once, at a generic position (a map loop, like range())"""
+        if len(self.axes) != 1 or self.sel is not None or self.mask is not None:
+            raise Unsupported("iteration over a filtered / masked / multi-dimensional symbolic array")
+        from . import shim_np
+        for k in shim_np.GenericRange(0, self.axes[0].size):
+            yield self[k]
 
     # ---- indexing
     def __getitem__(self, key):
